@@ -420,3 +420,27 @@ Definition C09_scion_auth_ok (bad_mac : bool) (sender conn_port local_port : Z) 
   if bad_mac && scion_addressed conn_port local_port req
   then match seen with [] => true | _ => false end
   else C09_scion_any_ok sender conn_port local_port req payload nts_valid rev seen.
+
+(* ---- the SCION/UDP length field ----
+   slayers.UDP.DecodeFromBytes (a copy of gopacket's): what the UDP layer hands to the listener
+   as payload, from the length field and the bytes that follow the 8-byte UDP header: a field
+   of at least 8 cuts the payload at that length (or at the end of the data, if the field
+   claims more), 0 means "the entire rest of the data" (jumbogram), 1..7 does not decode.
+   runSCIONServer then drops the packet if the field exceeds the length of the whole datagram.
+   The listener decides on len(udpLayer.Payload), never on the field. *)
+Definition udp_payload (len_field : Z) (after_hdr : list Z) : option (list Z) :=
+  if 8 <=? len_field then Some (firstn (Z.to_nat (len_field - 8)) after_hdr)
+  else if len_field =? 0 then Some after_hdr
+  else None.
+
+Definition scion_udp_payload (datagram_len len_field : Z) (after_hdr : list Z) : option (list Z) :=
+  if datagram_len <? len_field then None else udp_payload len_field after_hdr.
+
+(* the property's "UDP payload", from the definition of UDP: the length field counts header
+   and payload (0: everything that follows, RFC 2675); a field below 8, or one that claims
+   more bytes than are there, does not delimit a payload at all *)
+Definition udp_payload_spec (len_field : Z) (after_hdr : list Z) : option (list Z) :=
+  if len_field =? 0 then Some after_hdr
+  else if (8 <=? len_field) && (len_field <=? 8 + zlen after_hdr)
+       then Some (firstn (Z.to_nat (len_field - 8)) after_hdr)
+       else None.
